@@ -410,6 +410,7 @@ func checkC03(r *Report) {
 	}
 	r.floor("C03/EXHAUSTIVE", "unary operator token kinds in the table", len(unary), 9)
 	recycleCompleteRule(r, loadResolve("", true), "C03/RECYCLE-COMPLETE")
+	unitOpenRule(r, loadResolve("", true), "C03/UNIT-OPEN")
 }
 
 // ---------------------------------------------------------------- C16 ----
